@@ -97,7 +97,7 @@ def gen_plan(seed, k):
     engine = rp.choice(["default", "large", "fast"]) if mode == "B" else "default"
     ops = [{"op": "create", "i": 0, "chart": "main", "engine": engine}, {"op": "validate", "i": 0}] + p_c01.history_ops(rp)
     return {"id": k, "seed": seed, "entropy_seed": seed & 0x7fffffff, "mode": mode, "flavour": flavour, "planted": planted,
-            "sched": {"seed": seed & 0x7fffffff, "policy": "nonpreempt", "max_decisions": 400000},
+            "sched": {"seed": seed & 0x7fffffff, "policy": "nonpreempt", "max_decisions": 400000}, "step_budget": 900,
             "charts": {"main": xml}, "actors": {"main": ops}}
 
 
